@@ -57,9 +57,11 @@ class LabelKernel(gk.Kernel):
     p = sum_k 8^k * parameter_k[b]: exactly the label LazyKernel.tla assigns.  Parameters are evaluated by plain
     broadcasting against the data, like the lengthscale of a stationary kernel."""
 
-    def __init__(self, t=1, tails=((1, 1),), batch_shape=torch.Size([]), active_dims=None):
+    def __init__(self, t=1, tails=((1, 1),), batch_shape=torch.Size([]), active_dims=None, sens=()):
         super().__init__(batch_shape=batch_shape, active_dims=active_dims)
         self.t = t
+        # the components of the environment this kernel's meaning depends on (Sens of LazyKernel.tla): read WHEN forward runs
+        self.sens = tuple(sens)
         self.tails = [tuple(x) for x in tails]
         for i, tail in enumerate(self.tails):
             n = 1
@@ -77,7 +79,12 @@ class LabelKernel(gk.Kernel):
             if len(tail) == 0:
                 p = p.unsqueeze(-1).unsqueeze(-1)
             tot = p * (8 ** i) if tot is None else tot + p * (8 ** i)
-        return tot  # (*prefix, 1, 1)
+        return tot + 64 * self.env_code()  # (*prefix, 1, 1)
+
+    def env_code(self):
+        """EnvCode of LazyKernel.tla for the environment in force now"""
+        return ((1 if "mode" in self.sens and not self.training else 0) + (2 if "corr" in self.sens and gpytorch.settings.sgpr_diagonal_correction.off() else 0)
+                + (4 if "toep" in self.sens and gpytorch.settings.use_toeplitz.off() else 0))
 
     def forward(self, x1, x2, diag=False, last_dim_is_batch=False, **params):
         t = self.t
@@ -108,7 +115,10 @@ def label_inputs(shape_b, n, col=0):
 # the zoo.  make(PB, ad, d) -> kernel over d feature columns (after active_dims selection the kernel sees len(ad)).
 class Z:
     def __init__(self, name, make, t=1, batch=True, xkind="real", ad=True, sym=True, diag=True, stack=True, quick=False, eval_mode=False, d=D_FULL, ard=False, xscale=1.0,
-                 unit="axis", cusp=False):
+                 unit="axis", cusp=False, struct="plain", dvar=False):
+        # struct: the composite / multi-output structure (CompositeStructs of LazyKernel.tla) or "plain"; dvar: the diagonal k(x, x) VARIES over
+        # the points (declared here, stated by ZooDiagCover, probed on the real kernel by c06.py diag_probe)
+        self.struct, self.dvar = struct, dvar
         self.name, self.make, self.t, self.batch, self.xkind, self.d = name, make, t, batch, xkind, d
         # not differentiable at distance 0 (exp(-d/l) with d = sqrt(squared distance)): between two rows that are the SAME point the rounding
         # error of the squared distance (1e-17, different in every call: mean centring) enters with its square root (3e-9)
@@ -213,7 +223,53 @@ def zoo():
     # a sum / product whose members do not all own a parameter batch (kernel[i] of the unbatched member is the member itself)
     add("Sum(Matern-ard,Linear0)", lambda PB, ad, d: gk.AdditiveKernel(gk.MaternKernel(nu=1.5, ard_num_dims=_dim(d, ad), **_kw(PB, ad)), gk.LinearKernel(**_kw((), ad))), ard=True, quick=True)
     add("Product(Scale(RBF),RQ0)", lambda PB, ad, d: gk.ProductKernel(gk.ScaleKernel(gk.RBFKernel(**_kw(PB, ad)), batch_shape=_bs(PB)), gk.RQKernel(**_kw((), ad))))
+    # every composite / multi-output structure with a member whose DIAGONAL VARIES over the points (dot-product kernels): with a stationary
+    # member k(x, x) is one constant, and a diag relation (the Kronecker / block layout of a multi-output diagonal, a diagonal shortcut of a
+    # wrapper) holds by symmetry.  ZooDiagCover of LazyKernel.tla states the coverage, c06.diag_probe checks the declared class.
+    add("Scale(Linear-ard)", lambda PB, ad, d: gk.ScaleKernel(gk.LinearKernel(ard_num_dims=_dim(d, ad), **_kw(PB, ad)), batch_shape=_bs(PB)), ard=True)
+    add("Product(Polynomial,RBF)", lambda PB, ad, d: gk.ProductKernel(gk.PolynomialKernel(power=2, **_kw(PB, ad)), gk.RBFKernel(**_kw(PB, ad))))
+    add("Scale(Product(Linear,Sum(RBF,Polynomial)))",
+        lambda PB, ad, d: gk.ScaleKernel(gk.LinearKernel(**_kw(PB, ad)) * (gk.RBFKernel(**_kw(PB, ad)) + gk.PolynomialKernel(power=2, **_kw(PB, ad))), batch_shape=_bs(PB)))
+    add("Multitask(Linear,t=2)", lambda PB, ad, d: gk.MultitaskKernel(gk.LinearKernel(batch_shape=_bs(PB)), num_tasks=2, rank=1, **_kw(PB, ad)), t=2, batch=False, quick=True)
+    add("Multitask(Sum(Scale(RBF),Polynomial),t=3)",
+        lambda PB, ad, d: gk.MultitaskKernel(gk.ScaleKernel(gk.RBFKernel()) + gk.PolynomialKernel(power=2), num_tasks=3, rank=2, **_kw(PB, ad)), t=3, batch=False)
+    add("LCM(RBF,Linear,t=2)", lambda PB, ad, d: gk.LCMKernel([gk.RBFKernel(), gk.LinearKernel()], num_tasks=2, rank=1), t=2, batch=False, ad=False)
+    for z in out:
+        if z.name not in STRUCT:
+            from harness import core
+            raise core.Machinery("zoo kernel %s has no declared structure / diagonal class (c06_kernels.STRUCT)" % z.name)
+        z.struct, z.dvar = STRUCT[z.name]
     return out
+
+
+def _decl():
+    """name -> (structure, the diagonal k(x, x) varies over the points)"""
+    T = {}
+    for n in ("RBF RBF-ard Matern0.5 Matern1.5 Matern2.5-ard RQ Periodic Cosine PiecewisePolynomial Constant SpectralMixture RFF Arc Cylindrical(Matern) "
+              "Cylindrical(Scale(RBF)) SpectralDelta GaussianSymmetrizedKL Hamming RQ-ard Periodic-ard PiecewisePolynomial-ard").split():
+        T[n] = ("plain", False)
+    for n in "Linear Linear-ard Polynomial Index".split():
+        T[n] = ("plain", True)
+    T.update({"Scale(RBF)": ("scale", False), "Scale(Matern[ad])": ("scale", False), "Scale(Linear-ard)": ("scale", True),
+              "Sum(RBF,Linear)": ("sum", True), "Sum(Matern-ard,Linear0)": ("sum", True),
+              "Product(RBF,Periodic)": ("product", False), "Product(Scale(RBF),RQ0)": ("product", False), "Product(Polynomial,RBF)": ("product", True),
+              "Scale(Sum(Matern,Product(RBF,Cosine)))": ("nested", False), "Scale(Product(Linear,Sum(RBF,Polynomial)))": ("nested", True),
+              "GridInterpolation(RBF)": ("gridinterp", True),  # (the interpolation weights make the diagonal depend on the position in the grid cell)
+              # (the Nystrom diagonal k_xz Kzz^-1 k_zx varies over the points; the eval-mode diagonal correction, when switched on, replaces it by the
+              # constant diagonal of the base kernel: the class is probed with the correction off, one of the enumerated environments)
+              "InducingPoint(RBF)": ("inducing", True),
+              "Multitask(RBF,t=2)": ("multitask", False), "Multitask(Scale(Matern),t=2)": ("multitask", False), "Multitask(RBF[ad],t=2)": ("multitask", False),
+              "Multitask(RBF,t=3)": ("multitask", False), "Multitask(Matern-ard,t=2)": ("multitask", False), "Multitask(Linear,t=2)": ("multitask", True),
+              "Multitask(Sum(Scale(RBF),Polynomial),t=3)": ("multitask", True),
+              "LCM(RBF,Matern,t=2)": ("lcm", False), "LCM(RBF[ad],Matern[ad],t=2)": ("lcm", False), "LCM(RBF,Linear,t=2)": ("lcm", True),
+              "PolynomialGrad(d=1)": ("grad", True), "PolynomialGrad(d=2)": ("grad", True)})
+    for n in ("RBFGrad(d=1) RBFGrad(d=2) Matern52Grad(d=1) RBFGrad-ard(d=2) Matern52Grad-ard(d=2) Scale(RBFGrad-ard(d=2)) RBFGradGrad(d=1) RBFGradGrad-ard(d=2) "
+              "RBFGrad-ard(d=3)").split():
+        T[n] = ("grad", False)
+    return T
+
+
+STRUCT = _decl()
 
 
 _ZOO = None
